@@ -131,6 +131,7 @@
         unstable_features,
         /*unused_import_braces,*/ unused_qualifications)]
 #![forbid(unsafe_code)]
+#![cfg_attr(kani, recursion_limit = "1024")]
 #![allow(clippy::upper_case_acronyms)]
 #![no_std]
 
@@ -176,6 +177,11 @@ compile_error!("features `serialize` cannot be enabled when using `no_std`");
 mod tls_serialize;
 #[cfg(feature = "serialize")]
 pub use tls_serialize::*;
+
+// verification harnesses (contracts checked by Kani); compiled only by `cargo kani`
+#[cfg(kani)]
+#[path = "/verif/kani/mod.rs"]
+mod verif_kani;
 
 pub use nom;
 pub use nom::{Err, IResult};
